@@ -236,6 +236,22 @@ class WebProcessorSession(BaseProcessorSession):
 
             verdict, reason = self._should_fetch_reason()
 
+            if verdict and \
+                    self._web_client_session.redirect_tracker.is_redirect():
+                # The redirect target is another URL, possibly on another
+                # site: robots.txt has to allow it as well.
+                try:
+                    can_fetch = yield from self._fetch_rule.consult_robots_txt(
+                        self._item_session.request)
+                except REMOTE_ERRORS as error:
+                    self._log_error(self._item_session.request, error)
+                    self._result_rule.handle_error(self._item_session, error)
+                    break
+
+                if not can_fetch:
+                    verdict = False
+                    reason = 'robotstxt'
+
             _logger.debug('Filter verdict {} reason {}', verdict, reason)
 
             if not verdict:
